@@ -56,7 +56,95 @@ SCHEMAS['2b'] = '''
 #author: #site/"author"/user/#KEY <= #root | #other
 #article: #site/"article"/user/title <= #author
 '''
+# component constraints on the KEY rule for a pattern the packet name binds: only alice's key may sign articles
+# (bob's certificate itself is fine - it matches the unconstrained #anyauthor)
+SCHEMAS['2c'] = '''
+#KEY: "KEY"/_/_/_
+#site: "site"
+#root: #site/#KEY
+#author: #site/"author"/user/#KEY & {user: "alice"} <= #root
+#anyauthor: #site/"author"/user/#KEY <= #root
+#article: #site/"article"/user/title <= #author
+'''
+SCHEMAS['3c'] = '''
+#KEY: "KEY"/_/_/_
+#site: "site"
+#root: #site/#KEY
+#admin: #site/"admin"/adm/#KEY <= #root
+#author: #site/"author"/user/#KEY & {user: "bob" | "carol"} <= #admin
+#anyauthor: #site/"author"/user/#KEY <= #admin
+#article: #site/"article"/user/title <= #author
+'''
 LEVELS = {1: [], 2: ['author'], 3: ['admin', 'author'], 4: ['oper', 'admin', 'author']}
+
+
+# ---- independent reading of the (small subset of) Light VerSec the scenario schemas use ---------------------------
+
+
+@functools.lru_cache(maxsize=16)
+def ref_rules(schema_id):
+    """-> {rule name: [ (components, constraints, signers) , ...]}; components: ('lit', bytes) | ('any',) | ('pat', name)"""
+    raw = {}
+    for line in SCHEMAS[schema_id].strip().splitlines():
+        head, _, body = line.partition(':')
+        body, _, signers = body.partition('<=')
+        pattern, _, cons = body.partition('&')
+        consd = {}
+        cons = cons.strip()
+        if cons:
+            for item in cons.strip('{} ').split(','):
+                var, _, opts = item.partition(':')
+                consd[var.strip()] = [o.strip().strip('"').encode() for o in opts.split('|')]
+        raw[head.strip()] = ([c.strip() for c in pattern.strip().split('/')], consd,
+                             [x.strip() for x in signers.split('|') if x.strip()])
+
+    def expand(comps):
+        out = []
+        for c in comps:
+            if c.startswith('#'):
+                out += expand(raw[c][0])
+            elif c.startswith('"'):
+                out.append(('lit', tlvref.tlv(tlvref.T_GENERIC, c.strip('"').encode())))
+            elif c == '_':
+                out.append(('any',))
+            else:
+                out.append(('pat', c))
+        return out
+    return {name: (expand(comps), consd, signers) for name, (comps, consd, signers) in raw.items()}
+
+
+def ref_match(rule, name, ctx):
+    comps, consd, _signers = rule
+    if len(comps) != len(name):
+        return None
+    ctx = dict(ctx)
+    for c, v in zip(comps, name):
+        v = bytes(v)
+        if c[0] == 'lit':
+            if v != c[1]:
+                return None
+        elif c[0] == 'pat':
+            if c[1] in ctx:
+                if ctx[c[1]] != v:
+                    return None
+            else:
+                ctx[c[1]] = v
+    for var, opts in consd.items():
+        if var not in ctx or ctx[var] not in [tlvref.tlv(tlvref.T_GENERIC, o) for o in opts]:
+            return None
+    return ctx
+
+
+def ref_signing_check(schema_id, pkt_name, key_name):
+    rules = ref_rules(schema_id)
+    for rule in rules.values():
+        ctx = ref_match(rule, pkt_name, {})
+        if ctx is None:
+            continue
+        for sname in rule[2]:
+            if ref_match(rules[sname], key_name, ctx) is not None:
+                return True
+    return False
 
 
 @functools.lru_cache(maxsize=16)
@@ -69,7 +157,7 @@ def key_material(spec):
     """spec: ['ec', i] | ['rsa', i] -> (private DER, public DER)"""
     p = pool()
     kind, i = spec
-    rec = p['ec' if kind == 'ec' else 'rsa'][i % len(p['ec' if kind == 'ec' else 'rsa'])]
+    rec = p[kind][i % len(p[kind])]
     return bytes.fromhex(rec['prv']), bytes.fromhex(rec['pub'])
 
 
@@ -77,6 +165,8 @@ def mk_signer(spec, locator):
     prv, _pub = key_material(spec)
     if spec[0] == 'ec':
         return sec.Sha256WithEcdsaSigner(locator, prv)
+    if spec[0] == 'ed':
+        return sec.Ed25519Signer(locator, prv)
     return sec.Sha256WithRsaSigner(locator, prv)
 
 
@@ -136,6 +226,11 @@ class Pki:
                 # another certificate name of the same key (other issuer id) that nobody serves
                 locator = list(self.names[sb][:-2]) + [bytes(enc.Component.from_str('alt')), self.names[sb][-1]]
             signer = mk_signer(self.keys[sb], locator)
+            if spec.get('hmac_forgery'):
+                # anybody who has seen the certificate can do this: HMAC keyed with the certificate's PUBLIC key bits,
+                # naming that (genuine, retrievable) certificate as key locator
+                _prv, pub = key_material(self.keys[sb])
+                signer = sec.HmacSha256Signer(locator, pub)
         return bytes(enc.make_data(name, enc.MetaInfo(freshness_period=1000), b'article-' + spec['title'].encode(), signer=signer))
 
 
@@ -170,7 +265,8 @@ class ChainWorld(World):
         self.overlap_marks = []
         self.harness_tasks = set()
         from ndn.app_support.light_versec import Checker, DEFAULT_USER_FNS
-        self.checker = Checker(compiled('2b' if scenario.get('two_roots') else scenario['depth']), DEFAULT_USER_FNS)
+        self.schema_id = scenario.get('schema') or ('2b' if scenario.get('two_roots') else scenario['depth'])
+        self.checker = Checker(compiled(self.schema_id), DEFAULT_USER_FNS)
         self.apply_deviation_to_store()
         self.reset_default_storages()
 
@@ -328,6 +424,12 @@ class ChainWorld(World):
         self.log('store', change=k, label=op['label'])
         self.tok('S')
 
+    def op_facedown(self, op):
+        self.log('facedown')
+        self.stats['fault.face_down'] += 1
+        if self.face.running:
+            self.app.shutdown()
+
     def op_validate(self, op):
         t = self.loop.create_task(self._validate(op))
         self.harness_tasks.add(t)
@@ -390,7 +492,8 @@ class ChainWorld(World):
             def start():
                 self.harness_tasks.add(self.loop.create_task(self.app.main_loop()))
             self.loop.call_soon(start)
-            table = {'instance': self.op_instance, 'store': self.op_store, 'validate': self.op_validate}
+            table = {'instance': self.op_instance, 'store': self.op_store, 'validate': self.op_validate,
+                     'facedown': self.op_facedown}
             ops = sorted(self.scenario['ops'], key=lambda o: o['at'])
             i = 0
             while i < len(ops):
@@ -425,12 +528,12 @@ class ChainWorld(World):
         if not kl or p.sig_info is None or p.sig_value is None:
             return False
         name = [bytes(c) for c in p.name]
-        if not self.checker.check(name, [bytes(c) for c in kl]):
-            return False
+        if not ref_signing_check(self.schema_id, name, [bytes(c) for c in kl]):
+            return False                    # independent reading of the schema, not the library's Checker
         si = tlvref.elements(p.sig_info)
         st = tlvref.find(si, tlvref.T_SIG_TYPE)
         styp = int.from_bytes(p.sig_info[st[2]:st[3]], 'big') if st else None
-        if styp not in (1, 3):
+        if styp not in (1, 3, 5):
             return False
         a = tlvref.parse_data(anchor_wire)
         if [bytes(c) for c in kl] == [bytes(c) for c in a.name]:
@@ -470,9 +573,11 @@ class ChainWorld(World):
                              'forged' if op.get('anchor_forged') else 'mismatch',
                              f'validator {op["iid"]} was built although its trust anchor {why}')
             elif not bad_anchor and not e['ok']:
-                self.violate('C14', 'good-anchor-refused', 'lvs' if not op.get('bare') else 'cascade', 'constructor',
+                self.violate('C14', 'good-anchor-refused', 'lvs' if not op.get('bare') else 'cascade',
+                             'constructor' + ('-ed25519' if self.scenario['keys'][op.get('anchor', 'root')][0] == 'ed' else ''),
                              f'validator {op["iid"]} refused a proper trust anchor: {e.get("exc")}')
         has_transient = any(isinstance(p, list) and p[0] in ('lost', 'nack') for p in self.policy.values())
+        facedown_t = next((x['t'] for x in ev if x['k'] == 'facedown'), None)
         overlapping = set(self.overlap_marks)
         for e in ev:
             if e['k'] != 'verdict':
@@ -484,6 +589,10 @@ class ChainWorld(World):
             if iop is None or e['out'] == 'no-instance':
                 continue
             comp = 'cascade' if iop.get('bare') else 'lvs'
+            down = facedown_t is not None and e['t'] >= facedown_t
+            if e['out'] == 'error' and down and str(e.get('exc', '')).startswith(('NetworkError', 'InterestCanceled')):
+                self.ambiguous += 1      # the connection went away under the validation: raising is not accepting
+                continue
             if e['out'] == 'error':
                 self.violate('C14', 'validator-raised', comp, e.get('where', '?'), f'validation {e["vid"]} raised {e.get("exc")}')
                 continue
@@ -505,10 +614,10 @@ class ChainWorld(World):
             transient = has_transient and e['vid'] in overlapping      # fetch counters are only predictable for validations run alone
             if got and not upper:
                 pass
-            elif not got and exact and not transient and e['out'] is False:
+            elif not got and exact and not transient and e['out'] is False and not down:
                 self.violate('C14', 'rejected-valid-chain', comp, self._why(e),
                              f'{desc}: rejected although a valid, retrievable chain to the anchor exists')
-            elif e['out'] == 'bounded' and exact:
+            elif e['out'] == 'bounded' and exact and not down:
                 self.violate('C14', 'validation-hang', comp, self._why(e), f'{desc}: did not finish within the bound')
             if transient:
                 self.ambiguous += 1
@@ -521,6 +630,10 @@ class ChainWorld(World):
     def _why(self, e):
         dev = self.scenario.get('deviation') or {}
         n_inst = sum(1 for o in self.scenario['ops'] if o['op'] == 'instance')
+        if str(self.scenario.get('schema', '')).endswith('c'):
+            return 'constrained-schema' + ('+history' if n_inst > 1 else '')
+        if any(k[0] == 'ed' for k in self.scenario['keys'].values()) and not dev.get('kind'):
+            return 'ed25519-chain' + ('+history' if n_inst > 1 else '')
         return (dev.get('kind') or 'no-deviation') + ('+history' if n_inst > 1 else '')
 
 
@@ -531,13 +644,17 @@ def generate(rng, seed, tier='quick'):
     depth = rng.choice([1, 2, 2, 3, 3, 4])
     users = ['alice', 'bob']
     members = {}
-    free = {'ec': list(range(0, 9)), 'rsa': list(range(0, 5))}      # ec#9 and rsa#5 belong to the attacker      # distinct key material for every label
+    free = {'ec': list(range(0, 9)), 'rsa': list(range(0, 5)), 'ed': [0, 1]}     # ec#9, rsa#5 and ed#2 belong to the attacker      # distinct key material for every label
     rng.shuffle(free['ec'])
     rng.shuffle(free['rsa'])
+    rng.shuffle(free['ed'])
+    ed_prob = rng.choice([0, 0, 0.15, 0.5])
 
     def fresh(kind):
+        if rng.random() < ed_prob and free['ed']:
+            kind = 'ed'
         return [kind, free[kind].pop()]
-    keys = {'root': fresh(rng.choice(['ec', 'ec', 'rsa'])), 'root2': fresh('ec')}
+    keys = {'root': fresh(rng.choice(['ec', 'ec', 'rsa'])), 'root2': [ 'ec', free['ec'].pop()]}
     for lvl in LEVELS[depth]:
         members[lvl] = users if lvl == 'author' else [rng.choice(['m1', 'm2'])]
         for m in members[lvl]:
@@ -607,6 +724,8 @@ def generate(rng, seed, tier='quick'):
                 pkt['signed_by'] = rng.choice(choices)
             elif z < 0.26:
                 pkt['name_user'] = 'mallory'
+            elif z < 0.31:
+                pkt['hmac_forgery'] = True
             if (_ > 0 or depth == 1) and 'signed_by' not in pkt and rng.random() < 0.15:
                 pkt['alt_locator'] = True
                 pkt['user'] = prev_user
@@ -623,10 +742,22 @@ def generate(rng, seed, tier='quick'):
                         'label': rng.choice(chain_labels), 'by': rng.choice([['ec', 9], ['ec', 9], ['rsa', 5]])})
             t += 1000
     two_roots = depth == 2 and rng.random() < 0.2
-    return {'engine': 'trustchain', 'property': 'C14', 'seed': seed, 'two_roots': two_roots,
+    extra = {}
+    fetch_delay = rng.choice([0, 100, 5000])
+    vals = [o for o in ops if o['op'] == 'validate']
+    if vals and depth >= 2 and rng.random() < 0.1:
+        # the connection goes away while a (often forged) packet's chain is being fetched
+        v = rng.choice(vals)
+        if rng.random() < 0.6:
+            v['forge'] = rng.choice(['content', 'sigvalue'])
+        fetch_delay = 5000
+        ops.append({'at': v['at'] + rng.choice([1, 2500, 4999, 7500]), 'op': 'facedown'})
+    if not two_roots and depth in (2, 3) and rng.random() < 0.25:
+        extra['schema'] = f'{depth}c'        # a component constraint on the signing key's rule
+    return {'engine': 'trustchain', 'property': 'C14', 'seed': seed, 'two_roots': two_roots, **extra,
             'config': {'turn_cost_us': rng.choice([0, 0, 1]), 'wall_gran_us': 1000},
             'depth': depth, 'members': members, 'keys': keys, 'deviation': deviation, 'ops': ops,
-            'fetch_delay_us': rng.choice([0, 100, 5000])}
+            'fetch_delay_us': fetch_delay}
 
 
 def execute(sc, keep_events=False):
